@@ -1001,6 +1001,11 @@ def _cost_class(self, name) -> str:
                     heavy = heavy or self.cost_class(seg.inner[1]) == 'heavy'
     if self.children(name):
         medium = True
+
+    def depth(n):
+        return 1 + max([depth(c) for c in self.children(n)] + [0])
+    if len(self.chain(name)) - 1 + depth(name) >= 4:
+        heavy = True
     return 'heavy' if heavy else 'medium' if medium else 'cheap'
 
 
